@@ -110,7 +110,17 @@ def size_deps(repo: Repo, chk: Check) -> None:
                 isinstance(l, ast.For) and norm.contains(a_.expand(l.iter), T("$a.memref.type.shape")) for l in a_.loops)}
             for ms in fl.calls("MuliOp"):
                 lv = [l for l in ms.loops if isinstance(l, ast.For)]
-                if ms.reachable and lv and isinstance(lv[-1].target, ast.Name) and isinstance(lv[-1].iter, ast.Name) and lv[-1].iter.id in shape_lists \
+                it_ = norm.primary(ms.expand(lv[-1].iter)) if lv else None
+                for _ in range(3):
+                    # a copy of the list is the list
+                    if isinstance(it_, ast.Call) and isinstance(it_.func, ast.Name) and it_.func.id in ("list", "tuple") and len(it_.args) == 1:
+                        it_ = norm.primary(it_.args[0])
+                    elif isinstance(it_, ast.Call) and isinstance(it_.func, ast.Attribute) and it_.func.attr == "copy" and not it_.args:
+                        it_ = norm.primary(it_.func.value)
+                    elif isinstance(it_, ast.ListComp) and len(it_.generators) == 1 and not it_.generators[0].ifs and isinstance(it_.elt, ast.Name) \
+                            and isinstance(it_.generators[0].target, ast.Name) and it_.elt.id == it_.generators[0].target.id:
+                        it_ = norm.primary(it_.generators[0].iter)
+                if ms.reachable and lv and isinstance(lv[-1].target, ast.Name) and isinstance(it_, ast.Name) and it_.id in shape_lists \
                         and any(isinstance(a_, ast.Name) and a_.id == lv[-1].target.id for a_ in ms.node.args[:2]) \
                         and has_fact(ms, ["isinstance($l, NoneAttr)", "isinstance($l, builtin.NoneAttr)"]):
                     prod_ok = True
